@@ -168,6 +168,34 @@ def run(tier, v):
         else:
             s = scen[kk["id"]]
             v.violation({"records": s["recs"], "segments": s["segs"], "matches_deviation": kk["dev"], "observed": outs[kk["id"]]})
+    # ---- the same divisions through the worker pool, the segments arriving further apart than the workers' idle timeout
+    # (the reassembly state of a connection must survive a quiet period; the sequential path above has no timers)
+    pool_lines, pmeta = [], []
+    for hi in range(0, len(hellos), max(1, len(hellos) // (12 if tier == "thorough" else 4))):
+        h = hellos[hi]
+        for segs in ([len(h) // 2, len(h) - len(h) // 2], [5, 60, len(h) - 65], [len(h) - 1, 1]):
+            frames, p = [], 0
+            for n in segs:
+                frames.append(tcp_frame(h[p:p + n], sport=41000 + len(pool_lines), src=(10, 9, 0, 1 + hi % 200), seq=1 + p))
+                p += n
+            for nw, bs in ((1, 1), (2, 8)):
+                pool_lines.append({"id": len(pool_lines), "crate": "tls", "workers": nw, "queue": 64, "batch": bs, "timeout_ms": 5, "gap_us": 40000, "dispatchers": [frames], "matcher": False, "perturb": 0})
+                pmeta.append((hi, segs, nw, bs))
+    preq = os.path.join(wd, "pool.req")
+    vlib.write_ndjson(preq, pool_lines)
+    pout = os.path.join(wd, "pool.out")
+    vlib.run_hv_split("pool", preq, pout, parts=8, timeout=3000)
+    n_pool = 0
+    for o in vlib.read_ndjson(pout):
+        hi, segs, nw, bs = pmeta[o["id"]]
+        if "panic" in o:
+            v.violation({"api": "worker pool", "segments": segs, "observed": "panic: " + o["panic"]})
+            continue
+        n_pool += 1
+        got = [hashlib.sha1(json.dumps(r_["sig"], sort_keys=True).encode()).hexdigest() for r_ in o["results"]]
+        if got != [base[hi]]:
+            v.violation({"api": "worker pool (tls), %d worker(s), batch %d, 40 ms between segments, idle timeout 5 ms" % (nw, bs), "hello": hellos[hi].hex(), "segments": segs,
+                         "expected": "exactly one result, identical to the one-segment result", "observed_results": len(got), "identical": got == [base[hi]]})
     n_rep = sum(1 for o in outs.values() for x in o if x > 0)
     return v.finish("model_checking", {
         "states": rA.distinct + r2.distinct, "transitions": rA.generated + r2.generated,
